@@ -77,7 +77,7 @@ Proof. split; vm_compute; reflexivity. Qed.
    zone_file::Parser<File>), and its instance with the FULL zone-file parser model of C24.     *)
 From Coq Require Import String Ascii.
 From QV Require Import Model.NameWire Model.ZfReader Model.ZfParser Spec.ZfValidS Model.ZfInc Spec.ZfIncS
-  Proofs.ZfIncP Proofs.ZfIncFullP Proofs.ZfIncLinesP.
+  Proofs.ZfIncP Proofs.ZfIncFullP Proofs.ZfIncLinesP Proofs.ZfPathP.
 
 (* For every per-file iterator (next / context get / context set / creation on a file's content),
    file system and depth limit: if the spec's per-file budget k is not exhausted, then iterating
@@ -129,6 +129,21 @@ Theorem c25_lines_are_iter :
                               (snd (expand Origin Own Ttl Cls Rec SErr L pline fs max_depth [] p0 c0 t0)))).
 Proof.
   intros. split; [apply gexpand_lines; apply Nat.lt_succ_diag_r|apply lines_iter_run].
+Qed.
+
+(* "Relative include paths resolve against the including file's directory" (compute_path =
+   Path::parent + Path::join), read at the string level: an includer `dir/base` (base without `/`,
+   dir not empty and not ending in `/`) resolves `rel` to `dir/rel`, and to `rel` itself when rel is
+   absolute; an includer that is a bare file name resolves `rel` to `rel`. *)
+Theorem c25_relative_paths :
+  forall dir base rel : bytes, base <> [] -> no_slash base ->
+  compute_path base rel = Some rel /\
+  (dir <> [] -> last dir 0%N <> 47%N ->
+   compute_path (dir ++ 47%N :: base) rel =
+   Some (match rel with (47%N :: _)%list => rel | _ => dir ++ 47%N :: rel end)).
+Proof.
+  intros dir base rel Hne Hb. split; [apply compute_path_bare; assumption|].
+  intros Hd Hl. apply compute_path_in_dir; assumption.
 Qed.
 
 (* THE ZONE-FILE PARSER.  [full_run] = the include machine whose per-file parser is the model of
@@ -257,3 +272,4 @@ Print Assumptions c25_full_total_valid.
 Print Assumptions c25_full_include_boundary.
 Print Assumptions c25_full_include_directory.
 Print Assumptions c25_lines_are_iter.
+Print Assumptions c25_relative_paths.
